@@ -4,7 +4,7 @@ import json,re,sys,os
 res={}
 for f in sys.argv[1:]:
     for l in open(f):
-        m=re.match(r'RESULT (C\d+) (.*)',l.strip())
+        m=re.match(r'RESULT (C\d+(?:-r\d+)?) (.*)',l.strip())
         if not m: continue
         pid,rest=m.groups()
         d={}
@@ -16,8 +16,9 @@ for f in sys.argv[1:]:
         res[pid]=d
 props={json.loads(l)['id']:json.loads(l) for l in open('/verif/properties.jsonl')}
 extra=json.load(open('/verif/seeded/extra.json')) if os.path.exists('/verif/seeded/extra.json') else {}
-for pid,d in sorted(res.items()):
-    dirn=f'/verif/seeded/{pid}'
+for name,d in sorted(res.items()):
+    pid=name.split('-')[0]
+    dirn=f'/verif/seeded/{name}'
     if not os.path.isdir(dirn): continue
     notes=open(dirn+'/notes.md').read() if os.path.exists(dirn+'/notes.md') else ''
     needs=''
@@ -36,9 +37,9 @@ for pid,d in sorted(res.items()):
         "existing_tests_of_touched_packages_and_dependants":d.get('tests')+(" (chord/gateway tests are load-flaky on this box; see notes)" if d.get('tests')=='FAIL' else ''),
         "demo_with_change":d.get('demo_with_change'),
         "demo_without_change":d.get('demo_without_change'),
-        "ran":"tools/seedcheck.sh "+pid+"  (scratch git worktree of /repo: git apply, go build ./..., go test of touched packages + dependants, demo with and without the change; then tools/mutant.sh seeded/"+pid+"/patch.diff "+pid+" quick)"},
+        "ran":"tools/seedcheck.sh "+pid+(" <agent output dir> "+name if name!=pid else "")+"  (scratch git worktree of /repo: git apply, go build ./..., go test of touched packages + dependants, demo with and without the change; then tools/mutant.sh seeded/"+name+"/patch.diff "+pid+" quick)"},
      "check_result_quick":d.get('check_quick'),
     }
-    meta.update(extra.get(pid,{}))
+    meta.update(extra.get(name,{}))
     json.dump(meta,open(dirn+'/meta.json','w'),indent=1)
 print(len(res),'meta files')
